@@ -62,7 +62,23 @@ pub fn replay(path: &str) -> i32 {
             for (c, d) in crate::families::text::check_lossless(&src) {
                 println!("lossless oracle: {} {}", c, d);
             }
-            let path = scratch.single_path();
+            // `//// FILE <relative path>` starts another file of the project (the first part is main.gom)
+            let (path, src) = if src.contains("//// FILE ") {
+                let root = scratch.fresh_dir("multi");
+                let mut parts = src.split("//// FILE ");
+                let main_text = parts.next().unwrap_or("").to_string();
+                for part in parts {
+                    let (rel, body) = part.split_once('\n').unwrap_or((part, ""));
+                    let p = root.join(rel.trim());
+                    std::fs::create_dir_all(p.parent().unwrap()).ok();
+                    std::fs::write(&p, body).ok();
+                }
+                let mp = root.join("main.gom");
+                std::fs::write(&mp, &main_text).ok();
+                (mp, main_text)
+            } else {
+                (scratch.single_path(), src)
+            };
             match compiler::pipeline::pipeline::compile(&path, &src) {
                 Err(e) => {
                     println!("--- compile: rejected: {:?}", e.diagnostics().iter().map(|d| d.message().to_string()).collect::<Vec<_>>());
